@@ -464,6 +464,10 @@ func (g *qg) ex(d int, c ectx) ([]string, int) {
 		if g.chance("lkneg", 40) {
 			neg = "NOT "
 		}
+		if g.chance("likeexpr", 20) {
+			g.feat("like_pattern_expression") // grammar: value [NOT] LIKE value
+			return cat(low(), g.kw(neg+"LIKE"), low()), 2
+		}
 		return cat(low(), g.kw(neg+"LIKE"), one(g.strLit())), 2
 	case 21:
 		g.feat("any_all")
@@ -482,8 +486,23 @@ func (g *qg) ex(d int, c ectx) ([]string, int) {
 		case 0:
 			return cat(rv(), one(g.pick("cop4", cmpOps)), rv()), 2
 		case 1:
-			return cat(rv(), g.kw("IN"), g.paren(g.list(g.n("rvn", 1, 2), rv))), 2
+			// grammar: row_value negation IN matrix_value
+			rneg := ""
+			if g.chance("rvinneg", 40) {
+				g.feat("row_value_not_in")
+				rneg = "NOT "
+			}
+			if g.chance("rvinsub", 25) {
+				g.feat("row_value_in_subquery")
+				return cat(rv(), g.kw(rneg+"IN"), g.subquery(d-1, 2, true)), 2
+			}
+			return cat(rv(), g.kw(rneg+"IN"), g.paren(g.list(g.n("rvn", 1, 2), rv))), 2
 		case 2:
+			// grammar: row_value negation BETWEEN row_value AND row_value
+			if g.chance("rvbtpos", 50) {
+				g.feat("row_value_between")
+				return cat(rv(), g.kw("BETWEEN"), rv(), g.kw("AND"), rv()), 2
+			}
 			return cat(rv(), g.kw("NOT BETWEEN"), rv(), g.kw("AND"), rv()), 2
 		case 3:
 			return cat(rv(), one(g.pick("cop5", cmpOps)), g.kw(g.pick("anyall2", []string{"ANY", "ALL"})), g.paren(g.list(g.n("rvn2", 1, 2), rv))), 2
@@ -839,7 +858,7 @@ func (g *qg) join(d int) ([]string, []col) {
 			}
 		}
 	}
-	usingCol := ""
+	usingCol, usingCol2 := "", ""
 	cond := func() []string {
 		var common []string
 		for _, a := range lc {
@@ -848,6 +867,12 @@ func (g *qg) join(d int) ([]string, []col) {
 					common = append(common, a.name)
 				}
 			}
+		}
+		if len(common) > 1 && common[0] != common[1] && g.chance("using2", 30) {
+			g.feat("join_using")
+			g.feat("join_using_two_columns")
+			usingCol, usingCol2 = common[0], common[1]
+			return cat(g.kw("USING"), g.paren(cat(one(g.ident(common[0])), one(","), one(g.ident(common[1])))))
 		}
 		if len(common) > 0 && g.chance("using", 40) {
 			g.feat("join_using")
@@ -863,7 +888,7 @@ func (g *qg) join(d int) ([]string, []col) {
 	case 1, 2:
 		out := cat(left, g.kw(g.pick("inner", []string{"JOIN", "INNER JOIN"})), right, cond())
 		if usingCol != "" {
-			return out, merged(map[string]bool{usingCol: true})
+			return out, merged(map[string]bool{usingCol: true, usingCol2: true})
 		}
 		return out, all
 	case 3, 4:
@@ -874,7 +899,7 @@ func (g *qg) join(d int) ([]string, []col) {
 		}
 		out := cat(left, g.kw(g.pick("outer", dirs)+" JOIN"), right, cond())
 		if usingCol != "" {
-			return out, merged(map[string]bool{usingCol: true})
+			return out, merged(map[string]bool{usingCol: true, usingCol2: true})
 		}
 		return out, all
 	case 5:
@@ -890,7 +915,7 @@ func (g *qg) join(d int) ([]string, []col) {
 	}
 	out := cat(left, g.kw("JOIN"), right, cond())
 	if usingCol != "" {
-		return out, merged(map[string]bool{usingCol: true})
+		return out, merged(map[string]bool{usingCol: true, usingCol2: true})
 	}
 	return out, all
 }
@@ -1064,6 +1089,11 @@ func (g *qg) entity(d int, ncols int, named bool, oneRow bool) ([]string, []stri
 	if mode == "grouped" {
 		g.feat("group_by")
 		out = cat(out, g.kw("GROUP BY"), g.colRef(groupCols[0]))
+		if g.chance("groupby2", 25) {
+			// grammar: GROUP BY values - a further key (any expression over the table's columns; not used in the fields)
+			g.feat("group_by_second_key")
+			out = cat(out, one(","), g.expr(1, ectx{cols: cols}))
+		}
 		if g.chance("having", 40) {
 			g.feat("having")
 			out = cat(out, g.kw("HAVING"), g.aggregate(1, ectx{cols: cols}), one(g.pick("hop", cmpOps)), g.leaf(ectx{}))
